@@ -214,7 +214,8 @@ CHECKS = {
         "TypeDefs incl. arbitrary from-params index lists, std containers) are built with the real constructors; reported bound, "
         "every bound field in the serialized form, Array/List bounds and StaticArray acceptance are compared with a bound "
         "computed from the descriptor alone; one extension-type object whose arguments are replaced between two uses must report and "
-        "write the bound of its current arguments, also after a resolution against an empty registry.",
+        "write the bound of its current arguments, also after a resolution against an empty registry; the std definitions as loaded from JSON and every "
+        "generated definition re-loaded from its extension's JSON are instantiated as plain extension types.",
         "Trusted: ref_bound/wire_ty in vf/gen/types.py. Only TypeTypeArg at from-params positions; depth <= 3/5.",
         "DESIGN.md §3 C07",
     ),
